@@ -30,14 +30,20 @@ Changed(old, new) ==
     ELSE IF old.ph /\ ~new.ph THEN "phenotype-cache"
     ELSE "-"
 
-BadObjs(reg, ev) == {i \in DOMAIN ev.objs : ev.objs[i].id \in DOMAIN reg /\ Changed(reg[ev.objs[i].id], ev.objs[i]) # "-"}
+\* a snapshot may say which objects were EVALUATED since the previous one (evald, object ids): nobody else may gain a
+\* fitness entry - an offspring that shares its fitness cache with a parent hands the parent whatever it is scored with later
+ChangedE(ev, old, new) ==
+    IF Changed(old, new) # "-" THEN Changed(old, new)
+    ELSE IF "evald" \in DOMAIN ev /\ new.fits # old.fits /\ ~(\E k \in DOMAIN ev.evald : ev.evald[k] = new.id) THEN "cached-fitness-shared"
+    ELSE "-"
+BadObjs(reg, ev) == {i \in DOMAIN ev.objs : ev.objs[i].id \in DOMAIN reg /\ ChangedE(ev, reg[ev.objs[i].id], ev.objs[i]) # "-"}
 
 \* "given": the list object handed to a step, as sequences of object ids before and after the step ran
 Clause(reg, ev) == IF ev.e = "snap" /\ BadObjs(reg, ev) # {} THEN "C09:input-modified"
                    ELSE IF ev.e = "given" /\ ev.before # ev.after THEN "C09:input-modified" ELSE "ok"
 Attrs(reg, ev) ==
     IF ev.e = "snap" /\ BadObjs(reg, ev) # {}
-    THEN LET i == SMin(BadObjs(reg, ev)) IN <<ev.objs[i].kind, Changed(reg[ev.objs[i].id], ev.objs[i]), Cfg.rep>>
+    THEN LET i == SMin(BadObjs(reg, ev)) IN <<ev.objs[i].kind, ChangedE(ev, reg[ev.objs[i].id], ev.objs[i]), Cfg.rep>>
     ELSE <<>>
 
 RECURSIVE PutAll(_, _, _)
